@@ -677,7 +677,10 @@ impl<'p, 's, M: Matcher, W: WriteColor> Sink for SummarySink<'p, 's, M, W> {
         // With inversion, the lines given to us are exactly the ones that
         // don't contain a match, so there are only lines to count.
         if is_multi_line && !searcher.invert_match() {
-            self.match_count += sink_match_count;
+            // We're only here because there is a match. If it couldn't be
+            // found again (an empty match at the very end of the input,
+            // say), it still counts.
+            self.match_count += std::cmp::max(1, sink_match_count);
         } else {
             self.match_count += 1;
         }
